@@ -429,7 +429,8 @@ func popcount(m uint32) int {
 // Problem is one deviation from the statement.
 type Problem struct{ What, Detail string }
 
-// Judge compares one observation with the expectation. reachAll: the probe made
+// Judge compares one observation with the expectation and lists the deviations,
+// most severe first. reachAll: the probe made
 // enough successive round-robin picks (or all random draws) to see every
 // member, so for any-endpoint every cluster host must have shown up.
 func Judge(e Expect, o Obs, reachAll bool) []Problem {
@@ -443,11 +444,8 @@ func Judge(e Expect, o Obs, reachAll bool) []Problem {
 	if e.Allowed != 0 && o.Nils > 0 {
 		ps = append(ps, Problem{"no host chosen although eligible hosts exist", fmt.Sprintf("%d of %d ChooseHost calls returned nil, allowed %s", o.Nils, o.Calls, MaskString(e.Allowed))})
 	}
-	if o.HostNum != popcount(e.Allowed) {
-		ps = append(ps, Problem{"HostNum wrong", fmt.Sprintf("HostNum=%d, expected %d", o.HostNum, popcount(e.Allowed))})
-	}
-	if o.Exists != (e.Allowed != 0) {
-		ps = append(ps, Problem{"IsExistsHosts wrong", fmt.Sprintf("IsExistsHosts=%v, expected %v", o.Exists, e.Allowed != 0)})
+	if o.HostNum != popcount(e.Allowed) || o.Exists != (e.Allowed != 0) {
+		ps = append(ps, Problem{"HostNum / IsExistsHosts wrong", fmt.Sprintf("HostNum=%d IsExistsHosts=%v, expected %d %v", o.HostNum, o.Exists, popcount(e.Allowed), e.Allowed != 0)})
 	}
 	if e.Class == "fallback-any" && reachAll && o.Mask != e.Allowed && o.Mask&^e.Allowed == 0 && o.Nils == 0 {
 		ps = append(ps, Problem{"some cluster host unreachable", fmt.Sprintf("chosen %s over %d picks, cluster %s", MaskString(o.Mask), o.Calls, MaskString(e.Allowed))})
